@@ -50,6 +50,7 @@ func e2Session(args []string) int {
 	mode := fs.String("mode", "sync", "sync|async|c17")
 	seed := fs.Int64("seed", 1, "")
 	big := fs.Bool("big", false, "log more than the 4 MiB WAL buffer between rotations (async)")
+	bigSync := fs.Bool("bigsync", false, "a few values larger than the 4 MiB WAL buffer, so that one synchronous append needs several write calls")
 	nkeys := fs.Int("keys", 8, "")
 	_ = fs.Parse(args)
 	f, err := os.OpenFile(*ctlPath, os.O_WRONLY|os.O_CREATE|os.O_APPEND, 0644)
@@ -69,8 +70,11 @@ func e2Session(args []string) int {
 	}
 	opIdx := 0
 	sessions := 2 + r.Intn(2)
-	if *big {
+	if *bigSync {
 		sessions = 1
+	}
+	if *big {
+		sessions = 2 // a small clean session first: the big one then runs in a directory that was used before
 	}
 	for s := 0; s < sessions; s++ {
 		o := dbOptSet{
@@ -84,9 +88,17 @@ func e2Session(args []string) int {
 			Async: *mode == "async",
 		}
 		nops := 40 + r.Intn(110)
-		if *big {
+		bigNow := *big && s == 1
+		if *big && s == 0 {
+			nops = 5 + r.Intn(10)
+		}
+		if bigNow {
 			o.Memstore = 16 << 20
 			nops = 90 + r.Intn(40)
+		}
+		if *bigSync {
+			o.Memstore = 64 << 20
+			nops = 10 + r.Intn(6)
 		}
 		ctl.mark("SESSION %d %s", s, o.String())
 		ctl.mark("PHASE open-begin")
@@ -122,15 +134,17 @@ func e2Session(args []string) int {
 				}
 			default:
 				n := gen.Pick(r, 1, 5, 20, 60)
-				if *big {
+				if bigNow {
 					n = 64*1024 + r.Intn(192*1024)
 					v = gen.Bytes(r, n) // incompressible: the WAL is snappy-compressed
+				} else if *bigSync && r.Intn(2) == 0 {
+					v = gen.Bytes(r, 4300*1024+r.Intn(1700*1024))
 				} else {
 					v = []byte(fmt.Sprintf("s%d.%d-%s", s, i, strings.Repeat("y", n)))
 				}
 			}
 			vs := hex.EncodeToString(v)
-			if *big {
+			if *big || *bigSync {
 				// keep the marker small: the value is identified by its hash
 				h := sha256.Sum256(v)
 				vs = "sha:" + hex.EncodeToString(h[:8])
@@ -149,8 +163,8 @@ func e2Session(args []string) int {
 				ctl.mark("ACK %d ok", opIdx)
 			}
 			opIdx++
-			if r.Intn(30) == 0 {
-				_ = db.VerifForceRotate()
+			if !bigNow && r.Intn(30) == 0 {
+				_ = db.VerifForceRotate() // (big sessions rotate by memstore size only, so that the 4 MiB WAL buffer wraps)
 			}
 			if r.Intn(12) == 0 {
 				time.Sleep(time.Duration(200+r.Intn(1500)) * time.Microsecond)
@@ -544,6 +558,7 @@ type e2Summary struct {
 }
 
 type e2Config struct {
+	bigSync   bool   // sync WAL with values larger than the WAL buffer
 	mode      string // sync | async | c17
 	big       bool
 	seed      int64
@@ -558,12 +573,15 @@ func e2RunSession(c *fw.Case, cfg e2Config) *e2Summary {
 	_ = os.MkdirAll(dbdir, 0755)
 	ctl := filepath.Join(work, "ctl")
 	strSize := 300000
-	if cfg.big {
+	if cfg.big || cfg.bigSync {
 		strSize = 9000000
 	}
 	args := []string{"e2session", "-dir", dbdir, "-ctl", ctl, "-mode", cfg.mode, "-seed", fmt.Sprint(cfg.seed), "-keys", fmt.Sprint(cfg.nkeys)}
 	if cfg.big {
 		args = append(args, "-big")
+	}
+	if cfg.bigSync {
+		args = append(args, "-bigsync")
 	}
 	logPath, res := e2Trace(work, "trace.log", 240, strSize, args...)
 	sum := &e2Summary{byPhase: map[string]int{}, verdicts: map[string]*e2Verdict{}, verdictCount: map[string]int{}}
@@ -629,7 +647,7 @@ func e2RunSession(c *fw.Case, cfg e2Config) *e2Summary {
 		go func() {
 			defer wg.Done()
 			for job := range jobs {
-				v := e2Judge(job, sum.keys, rbuf, wbuf, cfg.big, c)
+				v := e2Judge(job, sum.keys, rbuf, wbuf, cfg.big || cfg.bigSync, c)
 				_ = os.RemoveAll(job.dir)
 				vmu.Lock()
 				sum.judged++
@@ -688,7 +706,7 @@ func e2RunSession(c *fw.Case, cfg e2Config) *e2Summary {
 		if cfg.maxImages > 0 && sum.distinct > cfg.maxImages {
 			return
 		}
-		if cfg.mode == "async" && e2NewestWalIsCut(rp) {
+		if (cfg.mode == "async" || cfg.bigSync) && e2NewestWalIsCut(rp) {
 			sum.cutWal++
 		}
 		imgNo++
